@@ -101,6 +101,12 @@ func (c *searchCriterion) quickMatch(
 		ip := readJSONValue(line, `"IP":"`)
 		clientID := readJSONValue(line, `"CID":"`)
 
+		if strings.ContainsRune(host, '\\') || strings.ContainsRune(clientID, '\\') {
+			// The raw values contain JSON escape sequences and so may differ
+			// from the decoded ones.  Let the full match decide.
+			return true
+		}
+
 		var name string
 		if cli := findClient(ctx, logger, clientID, ip); cli != nil {
 			name = cli.Name
